@@ -306,3 +306,28 @@ Proof.
     rewrite <- (Z.mod_small x (2 ^ n)) at 1 by lia. rewrite Z.mod_pow2_bits_high by lia.
     rewrite <- (Z.mod_small x (2 ^ (n - 1))) by lia. rewrite Z.mod_pow2_bits_high by lia. reflexivity.
 Qed.
+
+(* bvneg is two's complement (bvnot, then add one); bvnot is xor with the all-ones vector; at width 256
+   the SMT-LIB reading and the EVM spec agree on NOT and on the signed value of a word *)
+Lemma smt_neg_is_not_plus_one n x : 0 <= n -> bvneg n x = bvadd n (bvnot n x) 1.
+Proof.
+  intros Hn. unfold bvneg, bvadd, bvnot, bvmod.
+  assert (0 < 2 ^ n) by (apply Z.pow_pos_nonneg; lia).
+  replace (2 ^ n - 1 - x + 1) with (- x + 1 * 2 ^ n) by lia. rewrite Z.mod_add by lia. reflexivity.
+Qed.
+Lemma smt_not_is_xor_ones n x : 0 <= n -> 0 <= x < 2 ^ n -> bvnot n x = Z.lxor x (Z.ones n).
+Proof.
+  intros Hn Hx. unfold bvnot.
+  assert (Hp : 0 < 2 ^ n) by (apply Z.pow_pos_nonneg; lia).
+  assert (E : 2 ^ n - 1 - x = Z.lnot x mod 2 ^ n).
+  { unfold Z.lnot. replace (Z.pred (- x)) with ((2 ^ n - 1 - x) + (-1) * 2 ^ n) by lia.
+    rewrite Z.mod_add by lia. symmetry; apply Z.mod_small; lia. }
+  rewrite E. apply Z.bits_inj'; intros i Hi. rewrite Z.lxor_spec.
+  destruct (Z_lt_le_dec i n) as [Hl|Hg].
+  - rewrite Z.mod_pow2_bits_low by lia. rewrite Z.lnot_spec by lia.
+    rewrite Z.ones_spec_low by lia. destruct (Z.testbit x i); reflexivity.
+  - rewrite Z.mod_pow2_bits_high by lia. rewrite Z.ones_spec_high by lia. rewrite xorb_false_r.
+    rewrite <- (Z.mod_small x (2 ^ n)) by lia. symmetry. apply Z.mod_pow2_bits_high; lia.
+Qed.
+Lemma smt_evm_agree_256 x : bvnot 256 x = evm_not x /\ bvsigned 256 x = to_signed x.
+Proof. split; reflexivity. Qed.
